@@ -317,6 +317,8 @@ def to_rat(v):
 
 
 # --------------------------------------------------------------------------
+_NP_INEXACT = ('np.float16', 'np.float32', 'np.float64', 'np.float128',
+               'np.complex64', 'np.complex128', 'np.complex256')
 _CALL_FLAGS = ('_call_has_out', '_call_out_optional')
 
 
@@ -559,6 +561,11 @@ class Interp(object):
         if isinstance(f, Inst):
             return self.call_inst(f, args, kwargs)
         if isinstance(f, Opaque):
+            if f.desc in _NP_INEXACT and len(args) == 1 and not kwargs \
+                    and is_scalar(args[0]):
+                # NumPy floating / complex scalar type applied to a number:
+                # the number (exact arithmetic, rounding is not modelled)
+                return to_rat(args[0])
             return Opaque(f.desc + '()')
         raise Undecided('call of %r' % (f,))
 
